@@ -5,6 +5,99 @@
 
 package padding
 
+// Ghost lemma functions: compositions whose contracts state the round-trip and accept-set
+// clauses of the property. They are verified against the contracts of Pad and Unpad (never
+// against their bodies) and are not called by anything.
+
+func lemmaRoundTripPKCS7(pad pkcs7Padding, m []byte) ([]byte, error)   { return pad.Unpad(pad.Pad(m)) }
+func lemmaRoundTripX923(pad ansiX923Padding, m []byte) ([]byte, error) { return pad.Unpad(pad.Pad(m)) }
+func lemmaRoundTripM2(pad iso9797M2Padding, m []byte) ([]byte, error)  { return pad.Unpad(pad.Pad(m)) }
+func lemmaRoundTripM3(pad iso9797M3Padding, m []byte) ([]byte, error)  { return pad.Unpad(pad.Pad(m)) }
+
+func lemmaAcceptSetPKCS7(pad pkcs7Padding, s []byte) []byte {
+	m, err := pad.Unpad(s)
+	if err != nil {
+		return nil
+	}
+	return pad.Pad(m)
+}
+
+func lemmaAcceptSetX923(pad ansiX923Padding, s []byte) []byte {
+	m, err := pad.Unpad(s)
+	if err != nil {
+		return nil
+	}
+	return pad.Pad(m)
+}
+
+func lemmaAcceptSetM2(pad iso9797M2Padding, s []byte) []byte {
+	m, err := pad.Unpad(s)
+	if err != nil {
+		return nil
+	}
+	return pad.Pad(m)
+}
+
+func lemmaAcceptSetM3(pad iso9797M3Padding, s []byte) []byte {
+	m, err := pad.Unpad(s)
+	if err != nil {
+		return nil
+	}
+	// m is s[bs:bs+n]; give Pad a copy so that the comparison below is with the untouched s
+	return pad.Pad(append([]byte(nil), m...))
+}
+
+//@ func lemmaRoundTripPKCS7 property C18
+//@   requires 1 <= pad && pad <= 255
+//@   ensures err == nil && len(result) == len(m)
+//@   ensures forall i :: 0 <= i && i < len(m) ==> result[i] == old(m[i])
+//@   modifies m[len(m)..cap(m)]
+//@ func lemmaRoundTripX923 property C18
+//@   requires 1 <= pad && pad <= 255
+//@   ensures err == nil && len(result) == len(m)
+//@   ensures forall i :: 0 <= i && i < len(m) ==> result[i] == old(m[i])
+//@   modifies m[len(m)..cap(m)]
+//@ func lemmaRoundTripM2 property C18
+//@   requires 1 <= pad && pad <= 255
+//@   ensures err == nil && len(result) == len(m)
+//@   ensures forall i :: 0 <= i && i < len(m) ==> result[i] == old(m[i])
+//@   modifies m[len(m)..cap(m)]
+//@ func lemmaRoundTripM3 property C18
+//@   requires 8 <= pad && pad <= 255
+//@   ensures err == nil && len(result) == len(m)
+//@   ensures forall i :: 0 <= i && i < len(m) ==> result[i] == old(m[i])
+//@   modifies m[0..cap(m)]
+
+//@ func lemmaAcceptSetPKCS7 property C18
+//@   requires 1 <= pad && pad <= 255
+//@   ensures result != nil ==> len(result) == len(s) && forall i :: 0 <= i && i < len(s) ==> result[i] == old(s[i])
+//@   modifies s[0..cap(s)]
+//@ func lemmaAcceptSetX923 property C18
+//@   requires 1 <= pad && pad <= 255
+//@   ensures result != nil ==> len(result) == len(s) && forall i :: 0 <= i && i < len(s) ==> result[i] == old(s[i])
+//@   modifies s[0..cap(s)]
+//@ func lemmaAcceptSetM2 property C18
+//@   requires 1 <= pad && pad <= 255
+//@   ensures result != nil ==> len(result) == len(s) && forall i :: 0 <= i && i < len(s) ==> result[i] == old(s[i])
+//@   modifies s[0..cap(s)]
+//@ func lemmaAcceptSetM3 property C18
+//@   requires 8 <= pad && pad <= 255
+//@   ensures result != nil ==> len(result) == len(s) && forall i :: 0 <= i && i < len(s) ==> result[i] == old(s[i])
+//@   modifies nothing
+
+//@ func NewPKCS7Padding property C18
+//@   panics iff blockSize == 0 || blockSize > 255
+//@   ensures typeis(result, pkcs7Padding)
+//@   modifies nothing
+//@ func NewANSIX923Padding property C18
+//@   panics iff blockSize == 0 || blockSize > 255
+//@   ensures typeis(result, ansiX923Padding)
+//@   modifies nothing
+//@ func NewISO9797M2Padding property C18
+//@   panics iff blockSize == 0 || blockSize > 255
+//@   ensures typeis(result, iso9797M2Padding)
+//@   modifies nothing
+
 //@ func (pkcs7Padding).Pad property C18
 //@   requires 1 <= pad && pad <= 255
 //@   ensures len(result) == len(src) + (pad - len(src) % pad)
